@@ -40,8 +40,70 @@ def load_known():
     return common.load_known_findings()
 
 
+RESULT_CACHE = os.path.join(common.CACHE, "results")
+
+
+def tree_key(sc):
+    """content hash of everything a harness result depends on except the harness selection"""
+    import hashlib
+    h = hashlib.sha256()
+    roots = [os.path.join(sc.dir, "libadsb_deku", "src"), os.path.join(sc.dir, "rsadsb_common", "src"),
+             os.path.join(common.DEKU_MODEL, "src"), os.path.join(common.TRACING_SHIM, "src")]
+    for root in roots:
+        if not os.path.isdir(root):
+            continue
+        for dp, dn, fn in sorted(os.walk(root)):
+            for n in sorted(fn):
+                if n == "verif_harness.rs" or n == "verif_replay.rs":
+                    continue
+                h.update(n.encode())
+                with open(os.path.join(dp, n), "rb") as f:
+                    h.update(f.read())
+    h.update(b"kani-0.68.0/cbmc-6.11")
+    return h.hexdigest()
+
+
+def cache_path(tk, o, feat):
+    import hashlib
+    k = hashlib.sha256((tk + json.dumps(o, sort_keys=True) + feat).encode()).hexdigest()
+    return os.path.join(RESULT_CACHE, k + ".json")
+
+
 def run_group(pid, tier, crate, feat, obls, jobs):
-    """One Kani build (crate x feature set) -> per-harness results with full check lists."""
+    """One Kani build (crate x feature set) -> per-harness results with full check lists.
+    Results are cached by content hash (sources of this tree + spec + harness + tool versions), so
+    that properties sharing a harness pay for it once per tree state."""
+    sc0 = build.make_scratch(obls, "kani")
+    tk = tree_key(sc0)
+    sc0.cleanup()
+    cached = {}
+    todo = []
+    use_cache = os.environ.get("VERIF_NO_CACHE", "") == ""
+    for o in obls:
+        cp = cache_path(tk, o, feat)
+        if use_cache and os.path.exists(cp):
+            try:
+                with open(cp) as f:
+                    cached[o["name"]] = json.load(f)
+                cached[o["name"]]["cached"] = True
+                continue
+            except Exception:
+                pass
+        todo.append(o)
+    if not todo:
+        return cached, 0.0, ""
+    res, dt, out = run_group_uncached(pid, tier, crate, feat, todo, jobs)
+    os.makedirs(RESULT_CACHE, exist_ok=True)
+    for o in todo:
+        r = res.get(o["name"])
+        if r and r["status"] in ("SUCCESSFUL", "FAILED"):
+            with open(cache_path(tk, o, feat), "w") as f:
+                json.dump(r, f)
+    res.update(cached)
+    return res, dt, out
+
+
+def run_group_uncached(pid, tier, crate, feat, obls, jobs):
     sc = build.make_scratch(obls, "kani")
     try:
         names = [o["name"] for o in obls]
@@ -157,6 +219,57 @@ def native_replay(obls_failed, feat="std"):
     return out
 
 
+def native_sweep(pid, seed, tier):
+    """Bounded stand-in (labelled bounded, never counted as proved): the real Frame::from_bytes
+    (real deku) against the spec on every truncation / extension of a corpus of frames.  Used where
+    CBMC cannot reach: buffers shorter than their format (error values make every later branch
+    ambiguous for symbolic execution; measured: > 400 s even for the empty buffer)."""
+    import diffcheck
+    import random
+    import subprocess
+    o = [x for x in registry.OBL if x["name"] == "frame_any_native"]
+    n = 1500 if tier == "quick" else 20000
+    frames = [bytes.fromhex(h) for h in diffcheck.corpus(n, seed or 1) if len(h) in (14, 28)]
+    rnd = random.Random(seed or 1)
+    inputs = []
+    for f in frames:
+        for ln in range(0, len(f)):
+            inputs.append(bytes([ln]) + f[:ln])
+        pad = bytes(rnd.getrandbits(8) for _ in range(32 - len(f)))
+        for ln in (len(f), len(f) + 1, 20, 32):
+            if ln >= len(f):
+                inputs.append(bytes([ln]) + (f + pad)[:ln])
+    # every format code at every length with random content
+    for df in range(32):
+        for ln in range(0, 33):
+            b = bytearray(rnd.getrandbits(8) for _ in range(ln))
+            if ln:
+                b[0] = (df << 3) | (b[0] & 7)
+            inputs.append(bytes([ln]) + bytes(b))
+    sc = build.make_scratch(o, "native")
+    fails = []
+    try:
+        exe = build.build_native(sc)
+        p = subprocess.run([exe, "frame_any_native", "-"], input="\n".join(i.hex() for i in inputs) + "\n",
+                           capture_output=True, text=True, timeout=1800)
+        lines = [l for l in p.stdout.splitlines() if l.startswith("LINE ")]
+        if len(lines) != len(inputs):
+            raise Undecided("native sweep produced %d lines for %d inputs" % (len(lines), len(inputs)))
+        for l in lines:
+            parts = l.split(" ", 2)
+            hx = parts[1]
+            rest = parts[2] if len(parts) > 2 else ""
+            if rest.startswith("PANIC"):
+                fails.append((hx, ["PANIC " + rest[6:]]))
+            else:
+                m = re.match(r"checks=(\d+) outside=(\w+) failed=(\d+) ?(.*)", rest)
+                if m and int(m.group(3)) > 0:
+                    fails.append((hx, m.group(4).split(" ;; ")))
+    finally:
+        sc.cleanup()
+    return len(inputs), fails
+
+
 def check_property(pid, tier):
     t0 = time.time()
     seed = int(os.environ.get("VERIF_SEED", "0") or 0)
@@ -166,6 +279,15 @@ def check_property(pid, tier):
         return verus_crc.check(tier, seed, obls)
     if not obls:
         raise Undecided("no obligations registered for %s" % pid)
+    native_monitors = [o for o in registry.OBL if (pid + "-native") in o["props"]]
+    monitor_notes = []
+    if native_monitors:
+        nat = native_replay([(o, "") for o in native_monitors])
+        for o in native_monitors:
+            r = nat.get(o["name"], {})
+            if r.get("fails") or r.get("panic") or "checks=" not in r.get("text", ""):
+                raise Undecided("assumption monitor %s failed natively: %s" % (o["name"], r.get("text", "")[:500]))
+            monitor_notes.append("%s: validated natively on this run (%s)" % (o["name"], o["domain"]))
     jobs = int(os.environ.get("VERIF_JOBS", "14"))
     groups = {}
     for o in obls:
@@ -224,6 +346,7 @@ def check_property(pid, tier):
         if unsat_cov and r["status"] != "UNDECIDED":
             undecided.append("%s[%s]: vacuity guard: cover not satisfied: %s" % (name, feat, unsat_cov[0]["desc"]))
         per_harness.append({"harness": name, "features": feat, "status": r["status"], "time_s": r["time_s"],
+                            "result_reused_for_identical_tree": bool(r.get("cached")),
                             "obligations_ok": mine_ok, "obligations_failed": len(mine_fail),
                             "domain": o["domain"], "bounded": o["bounded"], "functions": o["functions"],
                             "stubs": r["stubs"]})
@@ -234,6 +357,15 @@ def check_property(pid, tier):
             vals = r.get("playback")
             hx = "".join("%02x" % b for v in (vals or []) for b in v)
             to_replay.append((o, feat, mine_fail, hx, vals is not None, r))
+
+    sweep_info = None
+    sweep_viol = []
+    if pid == "C02":
+        n_eval, sf = native_sweep(pid, seed, tier)
+        mine = [(hx, [c for c in cl if TAG_RE.match(c) and pid in TAG_RE.match(c).group(1).split(",")]) for hx, cl in sf]
+        mine = [(hx, cl) for hx, cl in mine if cl]
+        sweep_info = {"what": "BOUNDED native sweep (real deku): Frame::from_bytes vs spec on every truncation 0..len-1 and extensions (len+1, 20, 32) of corpus frames + all 32 format codes x lengths 0..=32", "evaluations": n_eval, "failures": len(mine)}
+        sweep_viol = mine[:5]
 
     # C20: only differences between the two configurations count
     if pid == "C20":
@@ -274,7 +406,20 @@ def check_property(pid, tier):
         for c in unknown:
             log("  failed obligation: %s (%s)" % (c, o["name"]))
 
+    known_all = known
+    for hx, cl in sweep_viol:
+        unknown = [c for c in cl if not any(kf_match(k, "frame_any_native", c) for k in known_all)]
+        if not unknown:
+            lines.append("KNOWN-FINDING: property=%s %s input=%s" % (pid, cl[0], hx))
+            continue
+        payload = {"property": pid, "obligation_harness": "frame_any_native", "features": "std", "input_hex": hx,
+                   "failed_obligations": [{"clause": c} for c in cl], "note": "found by the bounded native sweep (real code, real deku)"}
+        path = common.write_replay(pid, "sweep-" + hx[:40], payload)
+        n_viol += 1
+        exit_code = 1
+        lines.append("VIOLATION property=%s replay=%s" % (pid, path))
     assumptions = standard_assumptions(pid, obls, per_harness)
+    assumptions["assumed"] += monitor_notes
     level = "proof"
     ev = {
         "property_id": pid, "tier": tier, "seed": seed, "level": level,
@@ -285,6 +430,7 @@ def check_property(pid, tier):
             "harnesses": per_harness, "samples": samples,
             "solver_time_s": round(solver_time, 2),
             "bounded_parts": sorted({h["harness"] + ": " + h["bounded"] for h in per_harness if h["bounded"]}),
+            "bounded_native_sweep": sweep_info,
             "undecided": undecided, "known_findings_reported": [l for l in lines if l.startswith("KNOWN")],
             "exhaustive": not any(h["bounded"] for h in per_harness),
         },
